@@ -31,14 +31,19 @@ def mk_heap(src, log):
     def newline_hook(it, args, kw):
         log.append(('newline', args[0].name if isinstance(args[0], H.Ref) else None, it.h.version))
         return None
+    def value_newline_hook(it, args, kw):
+        # value_element.add_final_newline_if_missing(): the line of this field is terminated
+        log.append(('newline-value', args[0].name if isinstance(args[0], H.Ref) else None, it.h.version))
+        return None
     h = H.Heap(src.mod(PM), field_alias={'_previous_node': 'previous_node'}, extra_modules=[src.mod('_util'), src.mod('_deb822_repro.tokens')],
-               opaque_ctors={'Deb822WhitespaceToken'}, hooks={'_strI': strI, '._add_final_newline_if_missing': newline_hook})
+               opaque_ctors={'Deb822WhitespaceToken'}, hooks={'_strI': strI, '._add_final_newline_if_missing': newline_hook,
+                                                              '.add_final_newline_if_missing': value_newline_hook})
     return h
 
 
 def mk_kv(heap, name, tag):
     tok = heap.alloc('Deb822FieldNameToken', {'text': name}, name='@tok_%s' % tag)
-    return heap.alloc('KV', {'field_name': name, 'field_token': tok, 'parent_element': None, 'value_element': None}, name='@kv_%s' % tag)
+    return heap.alloc('KV', {'field_name': name, 'field_token': tok, 'parent_element': None, 'value_element': heap.alloc('VE', {}, name='@ve_%s' % tag)}, name='@kv_%s' % tag)
 
 
 def build_dup(heap, names):
@@ -248,7 +253,7 @@ def r5_dup_set_remove(rep, src):
         log = []
         heap = mk_heap(src, log)
         para, kvs, nodes = build_dup(heap, names)
-        new = heap.alloc('KV', {'field_name': k, 'field_token': heap.alloc('Deb822FieldNameToken', {'text': k}), 'parent_element': None, 'value_element': None}, name='@kv_NEW')
+        new = heap.alloc('KV', {'field_name': k, 'field_token': heap.alloc('Deb822FieldNameToken', {'text': k}), 'parent_element': None, 'value_element': heap.alloc('VE', {}, name='@ve_NEW')}, name='@kv_NEW')
         fn, it, clo, a = run_method(src, heap, para, DUP, 'set_kvpair_element', [key_arg(k, i), new])
         rep.saw_func(fn)
         what = 'set %s on [A B A C A]' % (k.spelling if i is None else '(%s, %d)' % (k.spelling, i))
@@ -278,10 +283,46 @@ def r5_dup_set_remove(rep, src):
             problems.append('occurrence lists %s do not match the document %s' % (gi, wi))
         nl = [e for e in log if e[0] == 'newline' and e[1] == para.name]
         is_new = k.cls == 'z'
+        # the element that is set may lack its own final newline (the last field of a document without final newline): wherever it is
+        # placed, something may follow it (a field, the separator of the next paragraph), so its line has to be terminated
+        if not any(e[0] == 'newline-value' and e[1] == '@ve_NEW' for e in log):
+            problems.append('the field element that is set is not given its final newline: an element without one (the last field of an unterminated document) placed before other '
+                            'fields or in an earlier paragraph swallows what follows it')
         if is_new and not (nl and nl[0][2] == v0):
             problems.append('a new field is placed after the last field without first supplying its final newline')
         if not is_new and nl:
             problems.append('replacing an existing field modifies the last field (final newline helper called)')
+        if problems:
+            rep.fail('C10.R5', fn.site, what, '; '.join(problems), where=fn.where)
+        else:
+            rep.ok('C10.R5', fn.site, what, '→ %s' % ' '.join(order))
+
+
+def r5b_replace_all_by_occurrence(rep, src):
+    """replacing all occurrences of a duplicated field by one of its own later occurrences (keeping that occurrence with its
+    formatting): the element is the only occurrence afterwards, in the place of the first, and it is attached to the paragraph"""
+    A, B, C = H.Key('a', 'A'), H.Key('b', 'B'), H.Key('c', 'C')
+    names = [A, B, A, C, A]
+    for occ, label in ((1, 'second'), (2, 'third')):
+        log = []
+        heap = mk_heap(src, log)
+        para, kvs, nodes = build_dup(heap, names)
+        value = H.Ref('@kv_a%d' % occ)
+        fn, it, clo, a = run_method(src, heap, para, DUP, 'set_kvpair_element', [key_arg(A, None), value])
+        rep.saw_func(fn)
+        what = 'set A (all occurrences) on [A B A C A] to its own %s occurrence' % label
+        try:
+            it.call(clo, a)
+        except H.Raised as x:
+            rep.fail('C10.R5', fn.site, what, 'raises %s (line %d)' % (x.exc, x.lineno), where=fn.where)
+            continue
+        order, index, problems = read_dup(heap, para)
+        want = ['a%d' % occ, 'b0', 'c0']
+        if order != want:
+            problems.append('fields are %s, reference model says %s' % (order, want))
+        if heap.objs[value.name]['parent_element'] != para:
+            problems.append('the surviving occurrence has the parent %r: it was attached and then detached again while the other occurrences were discarded, so the next '
+                            'dump() fails the parent assertion of iter_tokens()' % (heap.objs[value.name]['parent_element'],))
         if problems:
             rep.fail('C10.R5', fn.site, what, '; '.join(problems), where=fn.where)
         else:
@@ -358,7 +399,7 @@ def r_nodup(rep, src):
         log = []
         heap = mk_heap(src, log)
         para, lst, d = build(heap)
-        new = heap.alloc('KV', {'field_name': k, 'field_token': heap.alloc('Deb822FieldNameToken', {'text': k}), 'parent_element': None, 'value_element': None}, name='@kv_NEW')
+        new = heap.alloc('KV', {'field_name': k, 'field_token': heap.alloc('Deb822FieldNameToken', {'text': k}), 'parent_element': None, 'value_element': heap.alloc('VE', {}, name='@ve_NEW')}, name='@kv_NEW')
         fn, it, clo, a = run_method(src, heap, para, NOD, 'set_kvpair_element', [k, new])
         rep.saw_func(fn)
         what = 'set %s on unique fields [A B C]' % k.spelling
@@ -375,6 +416,9 @@ def r_nodup(rep, src):
         if elems.get(k.cls) != 'NEW':
             problems.append('the element table does not hold the new field')
         nl = [e for e in log if e[0] == 'newline']
+        if not any(e[0] == 'newline-value' and e[1] == '@ve_NEW' for e in log):
+            problems.append('the field element that is set is not given its final newline: an element without one (the last field of an unterminated document) placed before other '
+                            'fields or in an earlier paragraph swallows what follows it')
         if is_new and not (nl and nl[0][2] == v0):
             problems.append('a new field is placed after the last field without first supplying its final newline')
         if not is_new and nl:
@@ -627,10 +671,11 @@ def check(src, rep, tier):
                        'byte preservation of field text (elements are moved as whole objects; see C01 for conservation)']
     rep.need('C10.R1', 150)
     rep.need('C10.R4', 25)
-    rep.need('C10.R5', 15)
+    rep.need('C10.R5', 17)
     rep.need('C10.R6', 1)
     rep.guard('C10.R1', r1_r2_dup_reorder, src)
     rep.guard('C10.R5', r5_dup_set_remove, src)
+    rep.guard('C10.R5', r5b_replace_all_by_occurrence, src)
     rep.guard('C10.R1', r_nodup, src)
     rep.guard('C10.R4', r4_file_insert_append, src)
     rep.guard('C10.R2', r_sort, src)
